@@ -393,7 +393,7 @@ func genKeyUse(rt *rapid.T, kind string, nAlgs int) keyUse {
 
 func TestParseKeyUse(t *testing.T) {
 	sec := vk.Sec(t.Name())
-	vk.Check(t, 2500, 40000, func(rt *rapid.T) {
+	vk.Check(t, 8000, 80000, func(rt *rapid.T) {
 		var c keyCase
 		var kind string
 		c.Raw, c.CType, c.Note, kind = genKeyInput(rt)
